@@ -123,7 +123,31 @@ func c08Scenarios(tier string) []c08Scenario {
 
 func init() { checks["C08"] = c08 }
 
+// globalsSnap is set in the overlay build (c08globals_verif.go).
+var globalsSnap func() string
+
 func c08(r *report.Run) {
+	if globalsSnap == nil && os.Getenv("VERIF_IN_OVERLAY") == "" {
+		// re-run this check inside a checker built with the generated overlay, where every library
+		// package exposes its package-level variables for snapshotting
+		bin, _, cleanup, err := buildVerifBinary()
+		if err == nil {
+			cmd := exec.Command(bin, os.Args[1:]...)
+			cmd.Env = append(os.Environ(), "VERIF_IN_OVERLAY=1", "VERIF_ROOT="+report.Root)
+			cmd.Stdout, cmd.Stderr = os.Stdout, os.Stderr
+			rerr := cmd.Run()
+			cleanup()
+			if rerr == nil {
+				os.Exit(0)
+			}
+			if ee, ok := rerr.(*exec.ExitError); ok {
+				os.Exit(ee.ExitCode())
+			}
+			os.Exit(2)
+		}
+		cleanup()
+		r.Note("overlay build not available (%v): package-level state is covered by the race pass only", err)
+	}
 	if !vmstep.Available() {
 		r.Note("debug stepping seam not found: scheduler pass impossible")
 		r.Set("exhaustive", false)
@@ -142,6 +166,10 @@ func c08(r *report.Run) {
 		}
 	}
 	var schedules, steps int64
+	globalsBefore := ""
+	if globalsSnap != nil {
+		globalsBefore = globalsSnap() // taken after the solo runs above have warmed every lazily initialised object
+	}
 	usesSync := libraryImportsSync()
 	var deferred []report.Violation
 	outcomes := map[string]bool{}
@@ -198,6 +226,13 @@ func c08(r *report.Run) {
 				r.Report(report.Violation{Sub: "scheduler", Kind: "shared-program-modified", Witness: c08Diff(x.before, after), Order: order,
 					Detail: map[string]interface{}{"scenario": sc.name, "schedule": fmt.Sprint(schedule)}})
 			}
+			if globalsSnap != nil {
+				if g := globalsSnap(); g != globalsBefore {
+					r.Report(report.Violation{Sub: "scheduler", Kind: "package-level-state-modified", Witness: c08Diff(globalsBefore, g), Order: order,
+						Detail: map[string]interface{}{"scenario": sc.name, "schedule": fmt.Sprint(schedule)}})
+					globalsBefore = g
+				}
+			}
 			if s := snap.String(envs); s != envSnap {
 				r.Report(report.Violation{Sub: "scheduler", Kind: "shared-environment-modified", Witness: sc.name, Order: order,
 					Detail: map[string]interface{}{"schedule": fmt.Sprint(schedule)}})
@@ -234,6 +269,7 @@ func c08(r *report.Run) {
 		}
 	}
 	r.Set("library_imports_sync", usesSync)
+	r.Set("package_level_state_snapshotted", globalsSnap != nil)
 	r.Set("states", schedules)
 	r.Set("transitions", steps)
 	r.Set("traces_validated_against_impl", schedules)
@@ -245,6 +281,7 @@ func c08(r *report.Run) {
 	r.Set("rule", "every interleaving at instruction granularity with at most b preemptions (2 threads: b=2, 3 threads: b=1; thorough b+1) of VM threads running fresh shared program instances (regexp, lookup-map, folded slice, call-descriptor constants, nested scopes, ranges, dynamic patterns, a failing run on a multi-line source) on two shared read-only environments; states = complete schedules, transitions = instructions executed; distinct_nontrivial = distinct run results observed (one per program and environment on a correct tree: the threads share nothing mutable)")
 	r.Assume("scheduling points are instruction boundaries (vm.Debug() seam); accesses between two scheduling points are invisible to the scheduler and are covered only by the auxiliary free-running pass under the race detector (not model checking, declared as such)")
 	r.Assume("concurrent Compile calls are exercised only in the auxiliary race pass")
+	r.Assume("package-level variables of every library package are snapshotted after every schedule through accessors generated into a build overlay from the sources under test (package_level_state_snapshotted says whether that build was available)")
 }
 
 func c08Diff(a, b string) string {
